@@ -109,6 +109,10 @@ class Transport(object):
         pass
 
     def getHost(self):
+        if self.world.gethost_failures > 0:
+            # getsockname() on a socket the peer has already reset: the first connection(s) of this world cannot tell their address
+            self.world.gethost_failures -= 1
+            raise OSError(107, 'Transport endpoint is not connected')
         return Address(self.world.local_host, 40000 + self.tid)
 
     def getPeer(self):
@@ -180,6 +184,7 @@ class World(object):
         self.calls = []
         self.connectors = []
         self.thread_q = []
+        self.gethost_failures = 0
         self.effects = None
         self.local_host = local_host
         self.listening = []
